@@ -265,7 +265,7 @@ class Gen:
         c = r.random()
         if c < 0.25:
             n = self.pick([0, 1, 2])
-            return ("fn", r.random() < 0.2, self.pick([None, None, '"C"', "", '"system"']),
+            return ("fn", r.random() < 0.2, self.pick([None, None, '"C"', "", '"system"', '"C-unwind"']),
                     [self.ty(d - 1, params) for _ in range(n)], self.ty(d - 1, params) if r.random() < 0.6 else None)
         if c < 0.45:
             return ("ctor", "Box", [("aty", ("dyn", self.bounds(d - 1, params)))])
@@ -457,7 +457,7 @@ class Gen:
                 if c < 0.35:
                     # another ABI: none (Rust ABI) vs `extern`/`extern "C"` vs `extern "system"`
                     norm = lambda a: None if a is None else ('"C"' if a in ("", '"C"') else a)
-                    new = ("fn", n[1], self.pick([a for a in [None, '"C"', "", '"system"'] if norm(a) != norm(n[2])]), n[3], n[4])
+                    new = ("fn", n[1], self.pick([a for a in [None, '"C"', "", '"system"', '"C-unwind"', '"Rust"'] if norm(a) != norm(n[2])]), n[3], n[4])
                 elif c < 0.55:
                     new = ("fn", not n[1], n[2], n[3], n[4])
                 elif c < 0.7:
